@@ -42,7 +42,7 @@ def program_of(c):
 
 
 def describe(c):
-    rd = T.REUSED if T.primed(c) else 'fresh'    # harness/reuse.h: every other case reads with a reader object used before
+    rd = T.reader(c)    # harness/reuse.h: every other case reads with a reader object that read / refused a primer text before
     if c[0] < 2:
         p = program_of(c)
         s = C.pretty(p)
@@ -258,6 +258,8 @@ def mutate(case, rnd):
 RULE = ('cases = (read mode, BUF_SIZE in {4096,16,32,67}, call sequence | text); streams: one program per directive kind with extreme arguments (1, 2^31-1, +-(2^31-1), INT_MIN, '
         '0, 2^31, 2^32-1, empty lists, strings with blanks/newlines/CR/digits/all byte values), strings around k*BUF_SIZE, random programs of 1-4 steps (props/calls.py), '
         'programs of 3-40 KiB, programs with one argument out of range and ill-formed traces (correspondence only), accepted/faulty texts for write-what-was-read; '
+        ''
+        'every other case (hash of the case) is read by a reader OBJECT that before read or REFUSED one of the 8 aspif primer texts of harness/reuse.h (accepted incremental ones; refused inside a rule / theory atom / string / second step / problem line, as extra input); '
         'non-trivial = at least two directives written or an accepted text with directives; distinct = distinct case tuples')
 TRUSTED_BASE = ['props/aspif_ref.py norm/wf_call/wf_trace (python statement of the round-trip claim used as oracle on the implementation)',
                 'coq/C09/Spec.v abstract stream (C09 proves the real BufferedStream refines it; not re-proved here)',
